@@ -2,7 +2,7 @@
 from props.common import *
 import random, itertools
 
-SP_SRCS = ['dsp_blas2.c', 'dsp_blas3.c', 'dlangs.c', 'pdutil.c', 'dmyblas2.c', 'lsame.c', 'pmemory.c',
+SP_SRCS = ['dsp_blas2.c', 'dsp_blas3.c', 'dlangs.c', 'pdutil.c', 'dmyblas2.c', 'lsame.c', 'pmemory.c', 'pdmemory.c',
            ('util.c', ['-Dsuperlu_abort_and_exit=real_superlu_abort_and_exit'])]
 
 def q_gemv(pid, m, n, pat, tr, incx, incy, vendor=False):
@@ -46,6 +46,12 @@ def plan(tier, seed, pid='C19'):
                 for var in range(4):
                     qs.append(q_trsv(pid, n, sups, lp, up, var, vendor=False))
                     qs.append(q_trsv(pid, n, sups, lp, up, var, vendor=True))
+    # wider factors: two or more supernodes that are wider than one column and have rows below their diagonal block
+    full = lambda n: (1 << (n * n)) - 1
+    for (n, sups) in [(4, (2, 2)), (5, (2, 2, 1)), (5, (2, 3)), (5, (3, 2))] + ([(6, (2, 2, 2)), (6, (3, 2, 1))] if tier == 'thorough' else []):
+        for var in (range(4) if n == 4 else (0, 2)):    # at n=5 only the unit-lower solves finish (no divisions)
+            for vendor in (False, True):
+                qs.append(q_trsv(pid, n, sups, full(n), full(n), var, vendor=vendor))
     for mode in (3, 4, 5):
         ms = [(2, 2, p) for p in range(16)] + [(3, 3, 0x1ff), (3, 3, 0x0b5), (2, 3, 0x2d), (3, 2, 0x1e)]
         if tier == 'thorough':
@@ -57,7 +63,7 @@ META = {
     'level': 'model_checking',
     'engines': 'E2: cbmc symex of the real kernels -> SMT-LIB -> fp2alg Real -> z3 (5.1 and 4.8 side by side)',
     'bounds': {'sp_dgemv/sp_dgemm': 'm,n<=3 (n<=2 all patterns, 3x3/2x3/3x2 sampled quick / all thorough), trans N/T/C, strides +-1, +-2 in the implemented combinations, alpha and beta all reals (so 0 and 1 included)',
-               'sp_dtrsv': 'n<=3, every supernode partition, dense and sampled sub-block/U patterns, L/N/U, U/N/N, L/T/U, U/T/N, built-in kernels and vendor-BLAS stand-in',
+               'sp_dtrsv': 'n<=3 every supernode partition; n=4 all four variants, n=5 (thorough 6) the two unit-lower variants, dense factors with two or three wide supernodes; dense and sampled sub-block/U patterns, L/N/U, U/N/N, L/T/U, U/T/N, built-in kernels and vendor-BLAS stand-in',
                'dlangs': 'M, 1, O, I norms', 'format': 'dCompRow_to_CompCol, dCopy_CompCol_Matrix, dCreate_CompCol_Matrix'},
     'outside': ['rounding', 'Frobenius norm (the routine aborts with "Not implemented")',
                 'stride combinations for which sp_?gemv itself aborts with "Not implemented" (incy != 1 for N, incx != 1 for T/C)', 'complex conjugation'],
